@@ -1,6 +1,7 @@
 import Zrnt.Beacon.Spec.Epoch
 import Zrnt.Beacon.Impl.Altair
 import Zrnt.Beacon.Impl.Final
+import Zrnt.Beacon.Impl.Phase0
 /-!
 # Code-shaped model `M` of the places where zrnt's epoch processing is shaped differently from the spec
 
@@ -203,24 +204,40 @@ def processEpochRegistryUpdates (cfg : Config) (deneb : Bool) (currentEpoch fina
 The verdict (reject / overflow) is the specification's; the values are computed by `M`. `flats` is the
 snapshot of the registry taken at the start of `ProcessEpoch`. -/
 
-/-- `epc.TotalActiveStake` / `TotalActiveStakeSqRoot` as `loadCurrentStake` computes them -/
-def epcTotalActiveStake (cfg : Config) (flats : List Validator) (currentEpoch : Nat) : Nat := totalActiveStake cfg flats currentEpoch
-
 def altairAttesterData (cfg : Config) (s : State) : AltairAttesterData :=
   computeEpochAttesterDataAltair cfg s.validators s.previous_epoch_participation s.current_epoch_participation
     (get_previous_epoch cfg s) (active_indices_of s.validators (get_previous_epoch cfg s))
     (active_indices_of s.validators (get_current_epoch cfg s))
+
+/-- `epc.TotalActiveStake` / `TotalActiveStakeSqRoot` as `loadCurrentStake` computes them -/
+def epcTotalActiveStake (cfg : Config) (flats : List Validator) (currentEpoch : Nat) : Nat := totalActiveStake cfg flats currentEpoch
+
+def phase0AttesterData (cfg : Config) (s : State) : SM Phase0AttesterData := do
+  pure (computeEpochAttesterDataPhase0 cfg s.validators (get_previous_epoch cfg s)
+    (← resolve_attestations cfg s (get_previous_epoch cfg s)) (← resolve_attestations cfg s (get_current_epoch cfg s)))
+
+/-- phase0 `ProcessEpochRewardsAndPenalties` -/
+def rewardsPhase0M (cfg : Config) (s : State) : SM State := do
+  let s' ← process_rewards_and_penalties cfg s
+  if get_current_epoch cfg s = GENESIS_EPOCH then return s'
+  let d ← phase0AttesterData cfg s
+  let bals := processEpochRewardsAndPenaltiesPhase0 cfg s.validators d
+    (epcTotalActiveStake cfg s.validators (get_current_epoch cfg s)) (← get_finality_delay cfg s)
+    cfg.INACTIVITY_PENALTY_QUOTIENT s.balances
+  pure { s' with balances := bals }
 
 def justificationM (cfg : Config) (s : State) : SM State := do
   match ← justification_inputs cfg s with
   | none => pure s
   | some i =>
     -- altair+: the two target stakes come from `altair.ComputeEpochAttesterData`, the total from the epochs context
-    let (total, prevT, curT) :=
-      if s.fork = .phase0 then (i.total_active_balance, i.previous_epoch_target_balance, i.current_epoch_target_balance)
+    let (total, prevT, curT) ←
+      if s.fork = .phase0 then do
+        let d ← phase0AttesterData cfg s
+        pure (epcTotalActiveStake cfg s.validators (get_current_epoch cfg s), d.prevTargetStake, d.currTargetStake)
       else
         let d := altairAttesterData cfg s
-        (epcTotalActiveStake cfg s.validators (get_current_epoch cfg s), d.prevTargetStake, d.currTargetStake)
+        pure (epcTotalActiveStake cfg s.validators (get_current_epoch cfg s), d.prevTargetStake, d.currTargetStake)
     pure (withFFG s (processEpochJustification (get_previous_epoch cfg s) (get_current_epoch cfg s) (ffgOf s)
       total prevT curT i.previous_root i.current_root))
 
@@ -316,7 +333,7 @@ def processEpochM (cfg : Config) (agg : AggOracle) (s : State) : SM State := do
   let flats := s.validators
   let s ← justificationM cfg s
   let s ← if s.fork = .phase0 then pure s else inactivityM cfg s
-  let s ← if s.fork = .phase0 then process_rewards_and_penalties cfg s else rewardsAltairM cfg s
+  let s ← if s.fork = .phase0 then rewardsPhase0M cfg s else rewardsAltairM cfg s
   let s ← registryM cfg flats s
   let s ← slashingsM cfg flats s
   let s ← eth1ResetM cfg s
